@@ -252,4 +252,6 @@ CONTRACTS = [c for c in c30.CONTRACTS if c.id in ('adapt_sql.cache', 'parse_raw_
              HI.configs, HI.case, [('warm_trace_equals_cold_trace', HI.spec)], level='bounded', bound=HI.BOUND_Q + ' (thorough: ' + HI.BOUND_T + ')'),
     Contract('entity_sql_caches', ['pony.orm.core:EntityMeta._construct_sql_', 'pony.orm.core:EntityMeta._construct_batchload_sql_', 'pony.orm.core:EntityMeta._construct_select_clause_'],
              ES.configs, ES.case, [('warm_answer_equals_cold_answer', ES.spec)], level='bounded', bound=ES.BOUND),
+    Contract('save_statement_caches', ['pony.orm.core:Entity._save_updated_', 'pony.orm.core:Entity._save_created_', 'pony.orm.core:Entity._save_deleted_', 'pony.orm.core:Entity._construct_optimistic_criteria_'],
+             ES.save_configs, ES.save_case, [('warm_statements_equal_cold_statements', ES.spec)], level='bounded', bound=ES.BOUND_SAVE),
 ]
